@@ -242,7 +242,7 @@ class DiscreteFactorTable(Distribution):
                 margele = projection(ele)
             except TypeError:
                 try:
-                    margele = eval(projection, ele)
+                    margele = eval(projection, {}, ele)
                 except SyntaxError:
                     if isinstance(projection, list):
                         margele = {v: ele[v] for v in projection}
